@@ -25,6 +25,7 @@
    harness/pv/props/C01.py.  Float rounding is outside the model. *)
 From PV Require Import Model.Isir Proofs.IsirProofs Model.Csmc Proofs.CsmcSupport Proofs.CsmcInvariant Proofs.AuxVar Proofs.CsmcTarget Proofs.PgAssembly.
 From PV Require Import Model.Grammar Model.Proposals Proofs.GrammarTable Proofs.GrammarPG Proofs.GrammarForests Proofs.GrammarProposals Model.CsmcCases Proofs.CsmcEss.
+From PV Require Import Model.EndToEnd Proofs.EndToEndPos Proofs.EndToEndAlign Proofs.EndToEnd.
 
 Theorem C01_csmc_invariant :
   forall (A : Type) (q : list A -> dist A) (om : list A -> Qc) (rs : @swarm A -> bool) (n : nat),
@@ -202,6 +203,73 @@ Theorem C01_phyclone_update_invariant_closed_instance :
         (pg_update (gorders n) (gcden n) (gsup on) (q_boot po) (gtarget n gam) (gdec n) (genc n on) (ess_rs thr) N (schedule n))).
 Proof. exact phyclone_update_invariant_closed. Qed.
 Print Assumptions C01_phyclone_update_invariant_closed_instance.
+
+(* END TO END: the target is the FS-CRP posterior itself.  gam_fscrp alpha c G nsamp D n on t is exp(log_p_one) - C03's
+   specification (spec_log_p_one: CRP term, fixed-root topology term with the root penalty base c, multiplicity, outlier
+   priors, outlier marginals) evaluated on the data term C02 specifies (last entry of each sample's root vector of the
+   sum-product recursion, which C02_root_is_constrained_sum proves to be the constrained grid sum) - of the rose forest
+   that the state (a relation table) denotes.  For every number of data points, grid size, number of samples, data set
+   with positive grid likelihoods and outlier priors in [0,1), concentration alpha > 0, penalty base c > 0, particle
+   count and resampling threshold, PhyClone's update with each of its three proposals leaves that measure invariant.
+   No premise about targets, proposals, weights or criterion is left; the incremental weights are those that reach the
+   final target at the last step (gtarget), which is what Kernel.create_particle's last-step correction produces. *)
+Theorem C01_phyclone_update_leaves_fscrp_posterior_invariant :
+  forall (n G nsamp : nat) (on : bool) (alpha c : Qc) (D : nat -> dpoint) (thr : Q) (N : nat),
+  (1 <= n)%nat -> (1 <= G)%nat -> 0 < alpha -> 0 < c -> data_ok G nsamp D ->
+  let gam := gam_fscrp alpha c G nsamp D n on in
+  invariant (wlist gam (forests n on))
+    (pg_update (gorders n) (gcden n) (gsup on) (q_full on (gtarget n gam)) (gtarget n gam) (gdec n) (genc n on) (ess_rs thr) N (schedule n))
+  /\ invariant (wlist gam (forests n on))
+    (pg_update (gorders n) (gcden n) (gsup on) (q_semi on (gtarget n gam)) (gtarget n gam) (gdec n) (genc n on) (ess_rs thr) N (schedule n))
+  /\ (forall po : Qc, po < 1 -> (on = true -> 0 < po) -> (on = false -> po = 0) ->
+      invariant (wlist gam (forests n on))
+        (pg_update (gorders n) (gcden n) (gsup on) (q_boot po) (gtarget n gam) (gdec n) (genc n on) (ess_rs thr) N (schedule n))).
+Proof. exact phyclone_update_invariant_fscrp. Qed.
+Print Assumptions C01_phyclone_update_leaves_fscrp_posterior_invariant.
+
+(* the state really denotes the forest whose density is taken: the rose forest read off a table of the state space is a
+   well-formed clone forest (every data point once, no empty clone) over the points 0..n-1, without outliers when outlier
+   modelling is off, and its ancestor-or-equal relation is the table *)
+Theorem C01_state_denotes_its_forest : forall (n : nat) (on : bool) (t : list (list bool)), In t (forests n on) ->
+  let F := forest_of_table n on t in
+  tab n (frel F) = t /\ Density.wf F /\ Permutation.Permutation (seq 0 n) (fpoints F) /\ (on = false -> outl F = []).
+Proof. exact forest_of_table_spec. Qed.
+Print Assumptions C01_state_denotes_its_forest.
+
+(* the FS-CRP density (both forms) is positive on EVERY rose forest under the data premises *)
+Theorem C01_fscrp_density_positive : forall (G nsamp : nat) (D : nat -> dpoint), (1 <= G)%nat -> data_ok G nsamp D ->
+  forall (alpha c : Qc) (F : forest), 0 < alpha -> 0 < c ->
+    0 < dens_one alpha c G nsamp D F /\ 0 < dens_marg alpha G nsamp D F.
+Proof. intros G nsamp D HG Hd alpha c F Ha Hc. split; [apply dens_one_pos| apply dens_marg_pos]; assumption. Qed.
+Print Assumptions C01_fscrp_density_positive.
+
+(* the grammar on rose forests follows the grammar on relation tables letter by letter *)
+Theorem C01_rose_grammar_follows_table_grammar : forall (on : bool) (sig : list nat) (w : list place),
+  NoDup sig -> gvalid on g0 sig w ->
+  let F := frun f0 sig w in
+  (forall a b, gle (grun g0 sig w) a b = frel F a b) /\ groots (grun g0 sig w) = map rep (roots F).
+Proof.
+  intros on sig w Hnd Hv F. pose proof (al_run on sig w g0 f0 GrammarSound.ginv_g0 al_0 Hnd (fun _ _ H => H) Hv) as H.
+  split; [apply (al_le _ _ H)| apply (al_roots _ _ H)].
+Qed.
+Print Assumptions C01_rose_grammar_follows_table_grammar.
+
+(* non-vacuity: two data points on a two-point grid, one sample, outlier prior 1/10: the premises hold and the target takes
+   seven different positive values on the seven states (so the theorem is about a genuinely non-uniform posterior) *)
+Definition ex_D (i : nat) : dpoint :=
+  mkDP (Q2Qc (1#10)) 1 [if Nat.eqb i 0 then [Q2Qc (1#4); Q2Qc (3#4)] else [Q2Qc (2#3); Q2Qc (1#3)]].
+Example C01_fscrp_premises_satisfiable : data_ok 2 1 ex_D.
+Proof.
+  intros i. unfold ex_D. repeat split; cbn [dp_p dp_size dp_val length]; try reflexivity; try discriminate; try lia.
+  - destruct (Nat.eqb i 0); cbn [In] in H; destruct H as [<-|[]]; reflexivity.
+  - intros x Hx. destruct (Nat.eqb i 0); cbn [In] in H; destruct H as [<-|[]]; cbn [In] in Hx; destruct Hx as [<-|[<-|[]]]; reflexivity.
+Qed.
+Print Assumptions C01_fscrp_premises_satisfiable.
+Example C01_fscrp_target_example :
+  let g := gam_fscrp 1 (Q2Qc 1000) 2 1 ex_D 2 true in
+  length (forests 2 true) = 7%nat /\ length (nodup Qc_eq_dec (map g (forests 2 true))) = 7%nat /\ forallb (fun t => if Qclt_le_dec 0 (g t) then true else false) (forests 2 true) = true.
+Proof. split; [|split]; vm_compute; reflexivity. Qed.
+Print Assumptions C01_fscrp_target_example.
 
 (* a closed instance for every n, outlier setting, positive target, particle count and schedule: uniform proposals over
    all_places and the corresponding target-ratio weights - no premise about proposal or weights is left *)
